@@ -319,6 +319,10 @@ pub fn run(args: &Args, rec: &mut Recorder) {
             bulk_push_case(rng, rec, k);
             return None;
         }
+        if case % 20 == 17 || case % 20 == 3 {
+            api_twin_case(&g, rng, rec, k, case / 20, args.thorough);
+            return None;
+        }
         if case % 20 == 7 {
             // IF_DATA that is interpreted through the A2ML block of the file (generated definition,
             // conforming instances with comments inside)
@@ -503,6 +507,16 @@ pub fn run(args: &Args, rec: &mut Recorder) {
     rec.floor("entry.a2ml_interpreted_if_data", 5);
     rec.floor("api_built_models", 1);
     rec.floor("bulk_push.group_over_32", 2);
+    rec.floor("api_twin_models", 100);
+    // ... and must have been built through the API (IF_DATA is reached through loading only)
+    for e in &g.elements {
+        for t in &e.tags {
+            if matches!(t.as_str(), "A2L_FILE" | "IF_DATA" | "A2ML") {
+                continue;
+            }
+            rec.floor(&format!("twin_kind.{t}"), 1);
+        }
+    }
     // every element kind of the reference grammar must have occurred
     for e in &g.elements {
         for t in &e.tags {
@@ -614,6 +628,83 @@ fn api_built_case(rng: &mut Rng, rec: &mut Recorder, k: usize) {
                 );
             } else if let Err((sig, detail)) = cycle_check(&m, k, "") {
                 rec.violation(&format!("{sig} [API-built]"), &detail, witness_text("API-built", &t, ""));
+            }
+        }
+    }
+}
+
+/// The API-built twin of a generated document: the same element tree, created with `T::new(..)`,
+/// assignments to public fields and `push` only (functions generated from the reference grammar,
+/// all element kinds except IF_DATA). It must survive the cycles like any other model.
+fn api_twin_case(g: &Grammar, rng: &mut Rng, rec: &mut Recorder, k: usize, idx: u64, thorough: bool) {
+    let mut cfg = gen_cfg_wide(rng, thorough);
+    cfg.if_data = false;
+    cfg.a2ml = false;
+    cfg.comments_pct = 0;
+    cfg.reserved_ascending = true;
+    cfg.max_elems = cfg.max_elems.min(120);
+    let mut gen = DocGen::new(g, cfg);
+    let doc = if idx % 2 == 0 {
+        // systematic: one document per element kind, the kind with its optional sub-elements
+        let kinds: Vec<&String> = g
+            .elements
+            .iter()
+            .flat_map(|e| e.tags.iter())
+            .filter(|t| !matches!(t.as_str(), "A2L_FILE" | "IF_DATA" | "A2ML" | "ASAP2_VERSION" | "A2ML_VERSION"))
+            .collect();
+        let target = kinds[(idx / 2) as usize % kinds.len()];
+        let Some(path) = vcommon::docgen::containment_path(g, target) else {
+            rec.bump("api_twin.no_path");
+            return;
+        };
+        let (_lo, hi) = vcommon::docgen::path_version_range(g, &path);
+        gen.version = hi;
+        gen.cfg.opt_pct = 90;
+        let t = gen.gen_elem(rng, target);
+        gen.gen_doc_with(rng, &path, hi, t)
+    } else {
+        gen.gen_doc(rng)
+    };
+    let built = match crate::apibuild::build_file(&doc) {
+        Ok(b) => b,
+        Err(why) => {
+            rec.bump("api_twin.not_built");
+            if rec.notes.len() < 5 {
+                rec.notes.push(format!("API twin not built: {why}"));
+            }
+            return;
+        }
+    };
+    rec.eval();
+    rec.bump("api_twin_models");
+    let flat = doc.flatten();
+    for t in &flat.elem_tags {
+        rec.bump(&format!("twin_kind.{t}"));
+    }
+    let t = match write(&built) {
+        Ok(t) => t,
+        Err((sig, detail)) => {
+            rec.violation(&format!("{sig} [API-built twin]"), &detail, Json::obj().with("origin", Json::s("API-built twin")));
+            return;
+        }
+    };
+    rec.nontrivial(t.as_bytes());
+    match load_str(&t, false) {
+        Err((sig, detail)) => rec.violation(&format!("{sig} [API-built twin]"), &detail, witness_text("API-built twin", &t, "")),
+        Ok(Err(e)) => rec.violation(
+            &format!("reload of API-built model fails: {} [API-built twin]", crate::gram::err_class(&e)),
+            &format!("load(write(M0)) failed: {e}; written text near the reported line: {}", near_error_line(&t, &e.to_string())),
+            witness_text("API-built twin", &t, ""),
+        ),
+        Ok(Ok((m1, _))) => {
+            if m1 != built {
+                rec.violation(
+                    "reloaded model differs [API-built twin]",
+                    &format!("load(write(M0)) != M0; {}", model_diff(&built, &m1)),
+                    witness_text("API-built twin", &t, ""),
+                );
+            } else if let Err((sig, detail)) = cycle_check(&built, k, "") {
+                rec.violation(&format!("{sig} [API-built twin]"), &detail, witness_text("API-built twin", &t, ""));
             }
         }
     }
